@@ -895,7 +895,12 @@ pub fn gen_scenario(rng: &mut Rng, profile: Profile, tier: Tier) -> CursorScn {
     let mut steer: Vec<Vec<f64>> = funcs.iter().map(steering_ends).collect();
     // a very long history on a single evaluator (16-bit counters, "every N-th" paths); in the C16
     // profile its fault positions are sampled (see C16_LONG)
-    let ultra = rng.chance(1, if profile == Profile::Mixed { 40_000 } else { 100_000 });
+    let ultra_drawn = rng.chance(1, if profile == Profile::Mixed { 40_000 } else { 100_000 });
+    // Cost bound: direct evaluation is O(segments) per query, so a very long history (or a very long
+    // batch) is never combined with a function of more than 300 (very long histories) or 2000 (long batches, 100+-event histories) segments — the product, multiplied by
+    // C16's fault variants, would otherwise occupy one worker for the better part of an hour.
+    let heavy = funcs.iter().any(|f| f.ends.len() > 2000);
+    let ultra = ultra_drawn && !funcs.iter().any(|f| f.ends.len() > 300);
     let nclients = if ultra {
         1
     } else if crowd {
@@ -953,7 +958,7 @@ pub fn gen_scenario(rng: &mut Rng, profile: Profile, tier: Tier) -> CursorScn {
         }
         _ => {
             if rng.chance(1, 100) {
-                nev = rng.usize_in(100, 1500);
+                nev = if heavy { rng.usize_in(100, 300) } else { rng.usize_in(100, 1500) };
             }
             // a handful of very long histories (16-bit query counters wrap at 65 536)
             if ultra {
@@ -1111,7 +1116,7 @@ pub fn gen_scenario(rng: &mut Rng, profile: Profile, tier: Tier) -> CursorScn {
                 1..=12 => rng.usize_in(1, 6),
                 13..=18 => rng.usize_in(7, 24),
                 _ => {
-                    if rng.chance(1, 60) {
+                    if rng.chance(1, 60) && !heavy && profile != Profile::Mixed {
                         rng.usize_in(1000, 70_000)
                     } else {
                         rng.usize_in(25, 300)
@@ -1997,6 +2002,8 @@ fn c16_variant(base: &CursorScn, sub: u64, tier: Tier) -> CursorScn {
     if sub == 0 {
         return base.clone();
     }
+    // the whole-sequence batches are consumed once, with the base; the faulted variants are about the
+    // event history
     let sub = sub - 1;
     let vals = c16_fault_values(tier);
     let nv = vals.len() as u64;
@@ -2014,6 +2021,7 @@ fn c16_variant(base: &CursorScn, sub: u64, tier: Tier) -> CursorScn {
         }
     };
     let mut s = base.clone();
+    s.batches.clear();
     if sub < single {
         let pos = c16_positions(base)[(sub / (nv * nc)) as usize];
         let c = ((sub / nv) % nc) as usize;
